@@ -16,7 +16,7 @@ pub fn generate(prop: &str, r: &mut Rng, id: usize, thorough: bool) -> Group {
         "C01" => gen_c01(r, id, thorough),
         "C02" => gen_c02(r, id, thorough),
         "C03" => gen_c03(r, id),
-        "C04" => { let d_ = r.range(1, 5); gen_expr_case(r, id, "C04", &ExprOpts::default(), d_) },
+        "C04" => crate::oracle_b::gen_c04(r, id),
         "C05" => gen_c05(r, id, thorough),
         "C06" => gen_c06(r, id),
         "C07" => gen_c07(r, id),
@@ -152,6 +152,9 @@ pub fn gen_c03(r: &mut Rng, id: usize) -> Group {
 // ---------------------------------------------------------------------------------- C05
 
 pub fn gen_c05(r: &mut Rng, id: usize, _thorough: bool) -> Group {
+    if r.chance(50) {
+        return crate::oracle_b::gen_c05_extra(r, id);
+    }
     match r.below(3) {
         0 => {
             // malformed byte stream over the JSON-significant alphabet
@@ -170,7 +173,7 @@ pub fn gen_c05(r: &mut Rng, id: usize, _thorough: bool) -> Group {
         }
         1 => {
             let eo = ExprOpts { ill_typed: 45, ..Default::default() };
-            let mut g = { let d_ = r.range(1, 5); gen_expr_case(r, id, "C05", &eo, d_) };
+            let mut g = { let d_ = r.range(1, 5); crate::oracle_b::safe_expr_case(r, id, "C05", &eo, d_) };
             g.labels.push("kind:ill-typed".into());
             g
         }
@@ -751,6 +754,17 @@ pub fn gen_c15(r: &mut Rng, id: usize) -> Group {
         p.push(V::Arr(vec![V::Int(1), V::Str("q\"".into())]));
         p.push(V::Obj(vec![("k".into(), V::Str("v,w".into()))]));
         p.push(V::Arr(vec![]));
+        // random strings over the characters csv and text output have to get right
+        let alphabet: Vec<char> = "\",\n\r\t ';|ab1é日\\/".chars().collect();
+        for _ in 0..5 {
+            let n = r.below(7);
+            p.push(V::Str((0..n).map(|_| *r.pick(&alphabet)).collect()));
+        }
+        for _ in 0..4 {
+            p.push(V::Int(*r.pick(&value::boundary_ints())));
+        }
+        p.push(V::Float(*r.pick(&value::interesting_floats())));
+        p.push(V::Obj(vec![("a\"b".into(), V::Arr(vec![V::Null, V::Str("x\ny".into())])), ("é".into(), V::Float(2.5))]));
         p
     };
     let rows: Vec<V> = (0..r.range(0, 6))
@@ -765,8 +779,11 @@ pub fn gen_c15(r: &mut Rng, id: usize) -> Group {
         })
         .collect();
     let mut c = case(format!("C15-{id}"));
+    // column titles: mostly the key, sometimes a title with characters the header row has to quote
+    let titles = ["na me", "q\"t", "a,b", "é", "x=y", "t\tab", "'s'"];
     for i in 0..n_sel {
-        c.spec.selects.push(format!(".{}={}", names[i], names[i]));
+        let title = if r.chance(25) { format!("{}{}", titles[r.below(titles.len())], i) } else { names[i].to_string() };
+        c.spec.selects.push(format!(".{}={}", names[i], title));
     }
     let csv = r.chance(55);
     if csv {
@@ -1065,7 +1082,7 @@ pub fn gen_c19(r: &mut Rng, id: usize) -> Group {
             .collect();
         let (bytes, _) = stream_of(r, &rows, false);
         let mut c = case(format!("C19-{id}"));
-        match r.below(6) {
+        match r.below(10) {
             0 => {}
             1 => c.spec.selects = vec![".k=k".into(), "(take .l 2)=t".into(), "(reverese .l)=r".into(), "(sort .l)=s".into(), "(push .l .k)=p".into(), "(first .l)=f".into()],
             2 => c.spec.sorts.push(".id desc".into()),
@@ -1073,10 +1090,18 @@ pub fn gen_c19(r: &mut Rng, id: usize) -> Group {
             4 => {
                 c.spec.split = Some(".l".into());
             }
-            _ => {
+            5 => {
                 c.spec.group = Some(None);
                 c.spec.unique = true;
             }
+            6 => c.spec.sorts.push(format!(".k{}", r.ps(&["", " desc"]))),
+            7 => c.spec.selects = vec!["(take_last .l 2)=a".into(), "(sub .l 1 2)=b".into(), "(pop .l)=c".into(), "(last .l)=d".into(), "(get .l 1)=e".into(), "(values .)=f".into(),
+                                       "(push_front .l .k)=g".into(), "(sort_unique .l)=u".into(), ".=w".into(), "(map .l .)=m".into(), "(filter .l (number? .))=n".into(), "(default .zz .k)=o".into()],
+            8 => {
+                c.spec.unique = true;
+                c.spec.sorts.push(".k".into());
+            }
+            _ => c.spec.group = Some(Some("(stringify .k)".into())),
         }
         c.sources.push(stdin_src(bytes));
         let mut g = Group::new(vec![c]);
@@ -1089,6 +1114,9 @@ pub fn gen_c19(r: &mut Rng, id: usize) -> Group {
         let a = crate::exprgen::gen_decimal(r);
         let b = crate::exprgen::gen_decimal(r);
         let d = crate::exprgen::gen_decimal(r);
+        // the same numbers spelled differently (leading / trailing zeros, moved point, exponent)
+        let a2 = crate::oracle_b::respell_decimal(r, &a);
+        let b2 = crate::oracle_b::respell_decimal(r, &b);
         let mut c = case(format!("C19-{id}"));
         let q = |s: &str| format!("\"{s}\"");
         for (n, e) in [
@@ -1108,6 +1136,14 @@ pub fn gen_c19(r: &mut Rng, id: usize) -> Group {
             ("gt", format!("(\">\" {} {})", q(&a), q(&b))),
             ("ge", format!("(\">=\" {} {})", q(&a), q(&b))),
             ("eqself", format!("(\"=\" {} (\"+\" {} \"0.000\"))", q(&a), q(&a))),
+            ("eqsp", format!("(\"=\" {} {})", q(&a), q(&a2))),
+            ("nesp", format!("(\"!=\" {} {})", q(&a2), q(&a))),
+            ("ltsp", format!("(\"<\" {} {})", q(&a), q(&a2))),
+            ("gesp", format!("(\">=\" {} {})", q(&b2), q(&b))),
+            ("addsp", format!("(\"+\" {} {})", q(&a2), q(&b2))),
+            ("subsp", format!("(\"-\" {} {})", q(&a2), q(&a))),
+            ("mulsp", format!("(\"*\" {} {})", q(&a2), q(&b2))),
+            ("normsp", format!("(\"||\" {})", q(&a2))),
         ] {
             c.spec.selects.push(format!("{e}={n}"));
         }
